@@ -98,6 +98,8 @@ def run(prop, tier, repo, short_patterns=()):
         o.pop("prefer", None)
         o.pop("smt2_rel", None)
         o.pop("smt2_cone", None)
+        o.pop("smt2_near1", None)
+        o.pop("smt2_near2", None)
         out["obligations"].append(o)
     out["trusted"] = sorted(out["trusted"])
     out["inlined"] = sorted(out["inlined"])
